@@ -135,6 +135,20 @@ Variable lower_c : N -> str.
 
 Notation lower := (Multiword.lower lower_c).
 
+(* The string the alpha / e-mail / website detectors search while they slice
+   the original section with the offsets found:
+     working_string = section[0].lower()
+     if len(working_string) != len(section[0]):
+         working_string = ''.join(c.lower() if len(c.lower()) == 1 else c for c in section[0])
+   [aligned] = the source has the second statement (regenerated constant
+   seg_lower_aligned; it was added to repair the loss of characters on
+   U+0130, whose lower() has two characters). *)
+Variable aligned : bool.
+Definition lower1 (c : N) : N := match lower_c c with [x] => x | _ => c end.
+Definition lower_aligned (s : str) : str :=
+  let ws := lower s in if len ws =? len s then ws else map lower1 s.
+Definition working (s : str) : str := if aligned then lower_aligned s else lower s.
+
 (* ------------------------------------------------------------------ digit *)
 
 Definition detect_digits (s : str) : dres str :=
@@ -170,7 +184,7 @@ Section Alpha.
 Variable mwparse : str -> option (bool * list str).
 
 Definition detect_alpha (s : str) : dres (list str * list str) :=
-  let ws := lower s in
+  let ws := working s in
   match first_run isalpha ws with
   | None => DNo
   | Some (start_pos, end_pos) =>
@@ -287,7 +301,7 @@ Definition c_slash : N := 47%N.
 Definition c_colon : N := 58%N.
 Definition c_space : N := 32%N.
 
-(* the `for tld in tld_list` loop; ws = section[0].lower() *)
+(* the `for tld in tld_list` loop; ws = working_string *)
 Fixpoint email_go (s ws : str) (tl : list str) : dres (str * str) :=
   match tl with
   | [] => DNo
@@ -305,7 +319,7 @@ Fixpoint email_go (s ws : str) (tl : list str) : dres (str * str) :=
   end.
 
 Definition detect_email (tlds : list str) (s : str) : dres (str * str) :=
-  let ws := lower s in
+  let ws := working s in
   if negb (contains ws [c_dot]) then DNo
   else if negb (contains ws [c_at]) then DNo
   else email_go s ws tlds.
@@ -396,7 +410,7 @@ Definition web_accept (s ws tld : str) (total_index : Z) : dres (str * str * opt
       else DNo
   end.
 
-(* the `for tld in tld_list` loop; ws = section[0].lower() *)
+(* the `for tld in tld_list` loop; ws = working_string *)
 Fixpoint web_go (s ws : str) (tl : list str) : dres (str * str * option str) :=
   match tl with
   | [] => DNo
@@ -410,7 +424,7 @@ Fixpoint web_go (s ws : str) (tl : list str) : dres (str * str * option str) :=
   end.
 
 Definition detect_website (tlds : list str) (s : str) : dres (str * str * option str) :=
-  let ws := lower s in
+  let ws := working s in
   if negb (contains ws [c_dot]) then DNo else web_go s ws tlds.
 
 (* ---------------------------------------------------------- keyboard walk *)
